@@ -381,7 +381,55 @@ def gen_spike(rng, maxn=12):
     method = rng.choice(["average", "differential"])
     if rng.random() < 0.04:
         method = rng.choice(["Average", "median", ""])
+    if rng.random() < 0.12:
+        dec = gen_spike_decimal(rng, maxn)
+        if dec is not None:
+            return dec
     return {"fn": "spike", "method": method, "sus": sus, "fail": fail, "inp": xs}
+
+
+def gen_spike_decimal(rng, maxn=12):
+    """Decimal values (tenths) and decimal thresholds, spike magnitudes ON a threshold: off the dyadic lattice sums and halves
+    are rounded, so a case is kept only if, at every interior point and for both thresholds, the verdict over the reals (exact
+    rationals of the float inputs) equals the float64 evaluation of the DOCUMENTED formula — then the expected flags are
+    unambiguous and an algebraic rearrangement that rounds differently (second differences, x - a/2 - b/2, …) shows."""
+    import numpy as np
+
+    n = rng.randint(3, max(3, min(maxn, 8)))
+    method = rng.choice(["average", "differential"])
+    xs = [rng.choice([0.0, 1.2, 3.4, 2.4, 6.8, 0.1, 0.7]) for _ in range(n)]
+    if rng.random() < 0.5:
+        x = 0.0
+        xs = []
+        for _ in range(n):
+            x = float(np.float64(x) + np.float64(rng.choice([0.1, 0.5, 1.2, 2.2, -0.5, -1.1, 1.0])))
+            xs.append(float(np.round(x, 1)))
+    mags = []
+    for i in range(1, n - 1):
+        p_, x_, q_ = (np.float64(v) for v in xs[i - 1:i + 2])
+        if method == "average":
+            mags.append(float(np.abs(x_ - (p_ + q_) / 2)))
+        elif (x_ - p_) * (q_ - x_) < 0:
+            mags.append(float(np.minimum(np.abs(x_ - p_), np.abs(q_ - x_))))
+    pool = [m for m in mags if m > 0] + [0.5, 1.0]
+    sus, fail = float(rng.choice(pool)), float(rng.choice(pool))
+    for thr in (sus, fail):
+        for i in range(1, n - 1):
+            p_, x_, q_ = xs[i - 1:i + 2]
+            P, X, Q = F(p_), F(x_), F(q_)
+            if method == "average":
+                real = abs(X - (P + Q) / 2) > F(thr)
+                ieee = bool(np.abs(np.float64(x_) - (np.float64(p_) + np.float64(q_)) / 2) > np.float64(thr))
+            else:
+                a, b = X - P, Q - X
+                real = (a * b < 0) and min(abs(a), abs(b)) > F(thr)
+                fa, fb = np.float64(x_) - np.float64(p_), np.float64(q_) - np.float64(x_)
+                ieee = bool(fa * fb < 0 and np.minimum(np.abs(fa), np.abs(fb)) > np.float64(thr))
+                if (a * b < 0) != bool(fa * fb < 0):
+                    return None
+            if real != ieee:
+                return None
+    return {"fn": "spike", "method": method, "sus": F(sus), "fail": F(fail), "inp": [F(x) for x in xs], "decimal_f32": True}
 
 
 def gen_roc(rng, maxn=12):
